@@ -97,6 +97,7 @@ def run(repo, rep):
     rep.floor('C02.d:syntactic', n, 2)
 
     _builder(repo, rep)
+    _highlight(repo, rep)
     _splitter(repo, rep)
     _patterns(repo, rep)
     _escaping(repo, rep)
@@ -527,3 +528,95 @@ def _escaping(repo, rep):
                       '%s:%d' % (m.relpath, r.lineno), 'quote chosen when it is absent from the value, or needs fewer escapes',
                       'determine_quote_strategy returns %s under %s' % (v, gq.texts(r)), nontrivial=True)
     rep.floor('C02.e', n, 10)
+
+
+# --------------------------------------------------------------------------- C02.h
+def _highlight(repo, rep):
+    """the escape highlighter only annotates: every non-empty part of the split literal text is emitted once, in order;
+    intersperse() yields every element with the separator between"""
+    try:
+        from re import _parser as sre_parse
+    except ImportError:      # pragma: no cover
+        import sre_parse
+    m = repo.module('prettyprinter')
+    f = m.funcs.get('highlight_escapes')
+    n = 0
+    if f is None:
+        raise AnalysisError('highlight_escapes vanished')
+    pat = m.assigns.get('STR_LITERAL_ESCAPES')
+    n += 1
+    ok = False
+    if pat and isinstance(pat[-1], ast.Call):
+        a = pat[-1].args[0]
+        text = None
+        if isinstance(a, ast.Constant):
+            text = a.value
+        elif isinstance(a, ast.JoinedStr) is False:
+            try:
+                text = ast.literal_eval(a)
+            except Exception:
+                text = None
+        if text is not None:
+            try:
+                p = sre_parse.parse(text)
+                items = list(p)
+                ok = len(items) == 1 and str(items[0][0]) == 'SUBPATTERN' and items[0][1][0] == 1 and p.getwidth()[0] >= 1
+            except Exception:
+                ok = False
+    rep.check(ok, 'C02.h', 'STR_LITERAL_ESCAPES:one-capturing-group', m.relpath, 'escape pattern is one capturing group (split keeps the escapes)',
+              'STR_LITERAL_ESCAPES is not a single capturing group around a non-empty expression: highlight_escapes would drop text', nontrivial=True)
+    loops = [l for l in ast.walk(f.node) if isinstance(l, ast.For)]
+    n += 1
+    good = False
+    why = 'no loop'
+    if len(loops) == 1 and isinstance(loops[0].target, ast.Tuple):
+        lp = loops[0]
+        part = lp.target.elts[0].id
+        it = lp.iter
+        zipped = isinstance(it, ast.Call) and call_name(it) == 'zip' and it.args and src(it.args[0]) == 'matches'
+        from engine.switch import enumerate_paths
+        paths = enumerate_paths(lp.body, '__none__', {})
+        good = zipped
+        for p in paths:
+            apps = [e for e in p.events if e[0] == 'call' and e[1].endswith('.append')]
+            skipped = any(pol and t == 'not %s' % part for t, pol in p.conds)
+            if skipped:
+                good &= not apps
+            else:
+                good &= len(apps) == 1 and apps[0][2] and apps[0][2][0].replace(' ', '').endswith(',%s)' % part) and apps[0][2][0].startswith('annotate(')
+        why = 'loop over %s' % src(it)
+    defs = {src(a_.targets[0]): src(a_.value) for a_ in ast.walk(f.node) if isinstance(a_, ast.Assign) and isinstance(a_.targets[0], ast.Name)}
+    good = good and defs.get('matches') == 'STR_LITERAL_ESCAPES.split(%s)' % f.params[0]
+    rets = [src(r.value) for r in ast.walk(f.node) if isinstance(r, ast.Return) and r.value is not None]
+    good = good and 'concat(docs)' in rets
+    rep.check(good, 'C02.h', 'highlight_escapes:emits-every-part', f.where, 'every non-empty part annotated and emitted once, in order',
+              'highlight_escapes no longer emits every non-empty part of STR_LITERAL_ESCAPES.split(s) exactly once (%s; returns %s): characters '
+              'of the literal are lost or duplicated' % (why, rets), nontrivial=True)
+    g = Guards(f.node)
+    for r in ast.walk(f.node):
+        if isinstance(r, ast.Return) and r.value is not None and src(r.value) == 'NIL':
+            n += 1
+            rep.check(any(((not ff.pol) and ff.text == f.params[0]) or (ff.pol and ff.text == 'not %s' % f.params[0]) for ff in g.of(r)), 'C02.h', 'highlight_escapes:nil-only-for-empty', f.where,
+                      'NIL only for empty text', 'highlight_escapes returns NIL under %s' % g.texts(r))
+    n += intersperse_rule(repo, rep, 'C02.h')
+    rep.floor('C02.h', n, 4)
+
+
+def intersperse_rule(repo, rep, rule):
+    u = repo.module('utils')
+    f = u.funcs.get('intersperse')
+    if f is None:
+        raise AnalysisError('utils.intersperse vanished')
+    x, ys = f.params[0], f.params[1]
+    ylds = [y for y in ast.walk(f.node) if isinstance(y, ast.Yield)]
+    seq = [src(y.value) for y in sorted(ylds, key=lambda y: (y.lineno, y.col_offset))]
+    loops = [l for l in ast.walk(f.node) if isinstance(l, ast.For)]
+    ok = False
+    if len(loops) == 1 and isinstance(loops[0].target, ast.Name):
+        el = loops[0].target.id
+        inloop = [src(s_.value.value) for s_ in loops[0].body if isinstance(s_, ast.Expr) and isinstance(s_.value, ast.Yield)]
+        first = [s_ for s_ in f.node.body if isinstance(s_, ast.Expr) and isinstance(s_.value, ast.Yield)]
+        ok = inloop == [x, el] and len(first) == 1 and len(seq) == 3 and src(loops[0].iter) in ('it', 'iter(%s)' % ys)
+    rep.check(ok, rule, 'intersperse:every-element-with-separator-between', f.where, 'y0, (x, y1), (x, y2), ...',
+              'utils.intersperse yields %s: elements (comment lines, string pieces) would be dropped, duplicated or left unseparated' % seq, nontrivial=True)
+    return 1
